@@ -118,6 +118,34 @@ def enc_rows(rows):
     return ';'.join(f'{r[0]}:{r[1]}:{1 if r[2] else 0}:{enc(r[3])}' for r in rows)
 
 
+BASELINE_MAX_STEP = 64 * 86400      # the coarsest search step of the unchanged tree: the recorded finding is defined by it
+
+
+def chain_ok_baseline(init, rows, first, last):
+    """the region where the recorded finding `tzgen-excursion` does NOT apply, stated with the step of the unchanged tree and
+    not with the table the code has now (a class that follows the code would grow with a regression): every change of
+    (offset, dst flag, name) strictly inside the window is an offset change, and the old offset does not come back within
+    BASELINE_MAX_STEP. Mirrors Model/TzGen.lean chainGo; rows are (pos, off, isStd, name), ascending."""
+    if any(a[0] >= b[0] for a, b in zip(rows, rows[1:])):
+        return False
+    prev = tuple(init)
+    for i, r in enumerate(rows):
+        info = tuple(r[1:])
+        if r[0] <= first:
+            prev = info
+            continue
+        if last <= r[0]:
+            return True
+        if info == prev:
+            continue
+        if info[0] == prev[0]:
+            return False
+        if any(q[0] < r[0] + BASELINE_MAX_STEP and q[1] == prev[0] for q in rows[i + 1:]):
+            return False
+        prev = info
+    return True
+
+
 # ------------------------------------------------------------------ one (zone, provider, window) job
 
 def component_view(tz):
@@ -177,7 +205,7 @@ def job(args):
     from icalendar import Timezone
     from icalendar.timezone import tzp
     rng = random.Random(zlib.crc32(repr((tzid, prov, str(first_date), str(last_date), seed)).encode()))
-    res = {'corr': [], 'viol': [], 'evals': 0, 'counts': {}, 'chain': None, 'key': (tzid, prov, str(first_date), str(last_date))}
+    res = {'corr': [], 'viol': [], 'evals': 0, 'counts': {}, 'chain': None, 'chain_baseline': None, 'key': (tzid, prov, str(first_date), str(last_date))}
 
     def count(k, n=1):
         res['counts'][k] = res['counts'].get(k, 0) + n
@@ -222,6 +250,7 @@ def job(args):
         has_tr = any(first_i < t < last_i for t in keys)
         res['corr'].append(('tzgen', model_args, impl, has_tr))
         res['chain'] = ('tzgen_chain', [enc_info(init), enc_rows(sent), str(first), str(last)])
+        res['chain_baseline'] = chain_ok_baseline(init, sent, first, last)
         res['evals'] += 1
         count('provider:' + prov)
         count('zones-with-transitions' if has_tr else 'zones-without-transitions')
@@ -469,6 +498,12 @@ def oracle(ctx):
         if r['chain']:
             chain = flags[fi]
             fi += 1
+            # the finding class is decided by the baseline predicate; the model's answer (computed with the regenerated step
+            # table) says where the theorem applies and must agree with the baseline on the unchanged tree
+            base = '1' if r['chain_baseline'] else '0'
+            if chain in ('0', '1') and chain != base:
+                ctx.count('chainOK-differs-from-baseline')
+            chain = base
         ctx.count('oracle_evaluations', r['evals'])
         ctx.evaluated(r['key'], True)
         if chain == '1':
